@@ -567,6 +567,7 @@ def make_traced_classes():
             self._tr = tracer
             tracer.server = self
             self.created = []      # (conn index, addr id, token label, odcid, rscid)
+            self.created_dcid = {}  # conn index -> DCID (hex) of the datagram that created it
             user_cp = kw.pop("post_create", None)
             quic_factory = kw.pop("quic_factory", None)
 
@@ -583,6 +584,7 @@ def make_traced_classes():
                     st["kw"]["rand"] = _hx(connection.host_cid)
                     st["result"] = (f"new {p.cix} odcid={_hx(connection._original_destination_connection_id)} "
                                     f"rscid={_hx(connection._retry_source_connection_id) if connection._retry_source_connection_id is not None else 'none'}")
+                    self.created_dcid[p.cix] = st["kw"].get("dcid", "-")
                     self.created.append((p.cix, st["kw"]["addr"], st["kw"].get("token", "-"),
                                          connection._original_destination_connection_id,
                                          connection._retry_source_connection_id))
@@ -1162,6 +1164,37 @@ class World:
                         d in p._c19_advertised and any(c.cid == d for c in p._quic._host_cids):
                     self.problem(f"server dropped a datagram addressed to connection ID {d.hex()} that live connection "
                                  f"{p.cix} has issued and not retired", oracle="routing", kind="datagram-dropped")
+        # IDs the server has handed to a client and not seen retired: the source connection ID of its own Retry
+        # packet (when the client used it) and the advertised host CIDs the QUIC layer still holds
+        def handed(cix, tok):
+            p = self.tr.conns[cix]
+            ids = {c.cid for c in p._quic._host_cids if c.cid in getattr(p, "_c19_advertised", ())}
+            if tok.startswith("s"):
+                scid = self.tr.issued[int(tok[1:])][2]
+                if srv.created_dcid.get(cix) == _hx(scid):
+                    ids.add(scid)
+            return ids
+
+        live = [(cix, tok) for cix, addr, tok, odcid, rscid in srv.created
+                if self.tr.conns[cix]._quic._state.name != "TERMINATED"]
+        if st["exc"] is None and not getattr(srv, "_c19_closed", False):
+            # every such ID routes to that very protocol object
+            for cix, tok in live:
+                for cid in handed(cix, tok):
+                    if srv._protocols.get(cid) is not self.tr.conns[cix]:
+                        self.problem(f"live connection {cix} is not reachable through {_hx(cid)}, a connection ID the server "
+                                     f"handed to that client ("
+                                     f"{'source CID of its Retry packet' if cid not in self.tr.conns[cix]._c19_advertised else 'advertised host CID'}"
+                                     f") and has not seen retired (after step {st['line'][:50]!r})",
+                                     oracle="routing", kind="issued-cid-unreachable")
+            # hence a datagram addressed to one of them never creates a second connection state
+            if st["op"] == "sdgram" and st["result"].startswith("new "):
+                d = _unhx(st["kw"]["dcid"])
+                for cix, tok in live[:-1]:
+                    if d in handed(cix, tok):
+                        self.problem(f"a datagram addressed to {_hx(d)}, an ID the server handed to the client of live "
+                                     f"connection {cix}, created a SECOND connection state ({srv.created[-1][0]}) instead of "
+                                     f"reaching it", oracle="routing", kind="second-connection-state")
         for p in self.server_conns:
             q = p._quic
             terminated = q._state.name == "TERMINATED"
@@ -1725,3 +1758,86 @@ class QuietWorld(World):
             self.problem(f"exception escaped an event-loop callback at t={vt:.3f}: {msg} {exc!r}",
                          oracle="callback", exc=type(exc).__name__ if exc else "none")
         self.tr.on_step = None
+
+
+# ------------------------------------------------------------------ retry worlds
+RETRY_SCENARIOS = ["plain", "dup-initial", "drop-first-flight", "split-hello", "split-hello-dup", "drop-then-dup"]
+
+
+class RetryWorld(World):
+    """one real client against a real QuicServer(retry=True) on an otherwise lossless network, arranged so that
+    after the token-bearing Initial FURTHER datagrams addressed to the Retry source connection ID arrive before
+    the client learns the server's own connection ID:
+      dup-initial        the network delivers every client datagram of the first 50 ms twice
+      drop-first-flight  the server's first flight (everything it sends during the 300 ms after its Retry) is lost:
+                         the client's PTO retransmits its Initial to the Retry source CID
+      split-hello        a ClientHello too large for one datagram (long ALPN list): two Initial datagrams
+    Oracles: the routing checks of `World._after_step` (every ID handed to a client and not retired routes to its
+    protocol object; no second connection state), handshake completes, no callback raises."""
+
+    def __init__(self, seed, scenario):
+        super().__init__(seed, {"clients": 1, "p_drop": 0.0, "p_dup": 0.0, "idle_timeout": 20.0, "retry": True,
+                                "close_modes": ["late"], "close_after": [1.0], "p_server_waiters": 0.0, "p_cancel": 0.0})
+        self.net.delays = (0.0, 0.001, 0.003, 0.01)
+        self.scenario = scenario
+
+    async def main(self):
+        from aioquic.quic.connection import QuicConnection
+        from aioquic.quic.packet import QuicPacketType, pull_quic_header
+        from aioquic.buffer import Buffer
+        r = self.rng
+        sc = self.scenario
+        big = sc.startswith("split-hello")
+        alpn = ["proto-%03d-xxxxxxxxxxxxxxxx" % i for i in range(90)] if big else ["hq-interop"]
+        server = self.TS(tracer=self.tr, configuration=server_configuration(idle_timeout=self.idle, alpn_protocols=[alpn[-1]]),
+                         retry=False, stream_handler=self.server_stream_handler, post_create=self.new_server_conn)
+        server._retry = shared_retry_handler()
+        server._tap_retry()
+        self.net.attach(SERVER_ADDR, server)
+        caddr = ("1.2.3.1", 5000)
+        t0 = self.loop.time()
+        state = {"retry_at": None}
+
+        def policy(src, dst, data, n):
+            now = self.loop.time()
+            from_client = Net_key(src) == Net_key(caddr)
+            if not from_client and state["retry_at"] is None:
+                try:
+                    h = pull_quic_header(Buffer(data=data), host_cid_length=8)
+                    if h.packet_type == QuicPacketType.RETRY:
+                        state["retry_at"] = now
+                        return [0.001]
+                except ValueError:
+                    pass
+            if sc in ("dup-initial", "split-hello-dup", "drop-then-dup") and from_client and now - t0 < 0.05 + (0.6 if sc == "drop-then-dup" else 0):
+                return [0.001, r.choice([0.002, 0.004, 0.02])]
+            if sc in ("drop-first-flight", "drop-then-dup") and not from_client and state["retry_at"] is not None \
+                    and now - state["retry_at"] < 0.3:
+                return []
+            return None
+
+        self.net.policy = policy
+        conn = QuicConnection(configuration=client_configuration(idle_timeout=self.idle, alpn_protocols=alpn))
+        client = self.TP(conn, tracer=self.tr)
+        self.net.attach(caddr, client)
+        self.clients.append(client)
+        client.connect(SERVER_ADDR)
+        t_end = self.loop.time() + 15
+        while not conn._handshake_confirmed and not client._closed.is_set() and self.loop.time() < t_end:
+            await asyncio.sleep(0.01)
+        if not conn._handshake_confirmed:
+            self.problem(f"handshake with a retry-validating server did not complete (scenario {sc})",
+                         oracle="retry-world", kind="no-handshake")
+        self.notes["server_conns"] = len(self.server_conns)
+        await asyncio.sleep(1.0)
+        client.close()
+        await asyncio.sleep(3.0)
+        for vt, msg, exc in self.loop.escaped:
+            self.problem(f"exception escaped an event-loop callback at t={vt:.3f}: {msg} {exc!r}",
+                         oracle="callback", exc=type(exc).__name__ if exc else "none")
+        self.tr.on_step = None
+        server._c19_closed = True
+
+
+def Net_key(addr):
+    return (addr[0], addr[1])
